@@ -1,10 +1,11 @@
 (* C08: code-is-model for the generated DaskEWAResampler._generate_fornav_dask_tasks (Gen/GenC08imp.v:imp_fornav_tasks) *)
 From Coq Require Import ZArith List Bool Lia.
-From PR Require Import Base.ZX Base.Slice Base.Imp Model.Grid Model.EWA Gen.GenC08imp.
+From PR Require Import Base.ZX Base.Slice Base.Imp Model.EWA Gen.GenC08imp.
 Import ListNotations.
 Open Scope Z_scope.
 
 Ltac tk_proj := cbn [imp_fornav_tasks__ imp_fornav_tasks__ret imp_fornav_tasks_fill_value imp_fornav_tasks_in_col_idx imp_fornav_tasks_in_row_idx imp_fornav_tasks_input_name imp_fornav_tasks_key imp_fornav_tasks_kwargs imp_fornav_tasks_ll2cr_block imp_fornav_tasks_ll2cr_blocks imp_fornav_tasks_out_chunks imp_fornav_tasks_out_col_idx imp_fornav_tasks_out_row_idx imp_fornav_tasks_output_stack imp_fornav_tasks_set__ imp_fornav_tasks_set__ret imp_fornav_tasks_set_fill_value imp_fornav_tasks_set_in_col_idx imp_fornav_tasks_set_in_row_idx imp_fornav_tasks_set_input_name imp_fornav_tasks_set_key imp_fornav_tasks_set_kwargs imp_fornav_tasks_set_ll2cr_block imp_fornav_tasks_set_ll2cr_blocks imp_fornav_tasks_set_out_chunks imp_fornav_tasks_set_out_col_idx imp_fornav_tasks_set_out_row_idx imp_fornav_tasks_set_output_stack imp_fornav_tasks_set_target_geo_def imp_fornav_tasks_set_task_name imp_fornav_tasks_set_x_end imp_fornav_tasks_set_x_slice imp_fornav_tasks_set_x_start imp_fornav_tasks_set_y_end imp_fornav_tasks_set_y_slice imp_fornav_tasks_set_y_start imp_fornav_tasks_set_z_idx imp_fornav_tasks_target_geo_def imp_fornav_tasks_task_name imp_fornav_tasks_x_end imp_fornav_tasks_x_slice imp_fornav_tasks_x_start imp_fornav_tasks_y_end imp_fornav_tasks_y_slice imp_fornav_tasks_y_start imp_fornav_tasks_z_idx fst snd].
+Ltac tk_proj_in H := cbn [imp_fornav_tasks__ imp_fornav_tasks__ret imp_fornav_tasks_fill_value imp_fornav_tasks_in_col_idx imp_fornav_tasks_in_row_idx imp_fornav_tasks_input_name imp_fornav_tasks_key imp_fornav_tasks_kwargs imp_fornav_tasks_ll2cr_block imp_fornav_tasks_ll2cr_blocks imp_fornav_tasks_out_chunks imp_fornav_tasks_out_col_idx imp_fornav_tasks_out_row_idx imp_fornav_tasks_output_stack imp_fornav_tasks_set__ imp_fornav_tasks_set__ret imp_fornav_tasks_set_fill_value imp_fornav_tasks_set_in_col_idx imp_fornav_tasks_set_in_row_idx imp_fornav_tasks_set_input_name imp_fornav_tasks_set_key imp_fornav_tasks_set_kwargs imp_fornav_tasks_set_ll2cr_block imp_fornav_tasks_set_ll2cr_blocks imp_fornav_tasks_set_out_chunks imp_fornav_tasks_set_out_col_idx imp_fornav_tasks_set_out_row_idx imp_fornav_tasks_set_output_stack imp_fornav_tasks_set_target_geo_def imp_fornav_tasks_set_task_name imp_fornav_tasks_set_x_end imp_fornav_tasks_set_x_slice imp_fornav_tasks_set_x_start imp_fornav_tasks_set_y_end imp_fornav_tasks_set_y_slice imp_fornav_tasks_set_y_start imp_fornav_tasks_set_z_idx imp_fornav_tasks_target_geo_def imp_fornav_tasks_task_name imp_fornav_tasks_x_end imp_fornav_tasks_x_slice imp_fornav_tasks_x_start imp_fornav_tasks_y_end imp_fornav_tasks_y_slice imp_fornav_tasks_y_start imp_fornav_tasks_z_idx fst snd] in H.
 
 Definition tval := (Z * pslice * pslice * (Z * Z))%type.
 (* Python dict semantics: assigning the entries in order *)
@@ -23,3 +24,174 @@ Definition tasks_model (tn : Z) (ych xch : list Z) (blocks : list ((Z * Z * Z) *
 
 Lemma dput_app d a b : dput d (a ++ b) = dput (dput d a) b.
 Proof. unfold dput. apply fold_left_app. Qed.
+
+(* what the loops keep: the parameters and the enclosing loops' variables *)
+Definition frame1 (s' s : imp_fornav_tasks_st) : Prop :=
+  imp_fornav_tasks_out_chunks s' = imp_fornav_tasks_out_chunks s /\ imp_fornav_tasks_ll2cr_blocks s' = imp_fornav_tasks_ll2cr_blocks s /\ imp_fornav_tasks_task_name s' = imp_fornav_tasks_task_name s.
+Definition frame3 (s' s : imp_fornav_tasks_st) : Prop :=
+  frame1 s' s /\ imp_fornav_tasks_y_start s' = imp_fornav_tasks_y_start s /\ imp_fornav_tasks_y_end s' = imp_fornav_tasks_y_end s /\ imp_fornav_tasks_x_start s' = imp_fornav_tasks_x_start s /\ imp_fornav_tasks_x_end s' = imp_fornav_tasks_x_end s /\
+  imp_fornav_tasks_out_row_idx s' = imp_fornav_tasks_out_row_idx s /\ imp_fornav_tasks_out_col_idx s' = imp_fornav_tasks_out_col_idx s /\ imp_fornav_tasks_y_slice s' = imp_fornav_tasks_y_slice s /\ imp_fornav_tasks_x_slice s' = imp_fornav_tasks_x_slice s.
+
+(* innermost loop: one dict assignment per (z, ll2cr block) *)
+Lemma loop3 (body : M imp_fornav_tasks_st Empty_set (list (tkey * tval))) :
+  body = (andthen (assign (fun s => (imp_fornav_tasks_set_key ((fun p_ => p_) ((imp_fornav_tasks_task_name s), (imp_fornav_tasks_z_idx s), (imp_fornav_tasks_out_row_idx s), (imp_fornav_tasks_out_col_idx s))) s)))
+ (assign (fun s => (imp_fornav_tasks_set_output_stack (d_set tkey_eqb (imp_fornav_tasks_output_stack s) (imp_fornav_tasks_key s) ((imp_fornav_tasks_ll2cr_block s), (imp_fornav_tasks_y_slice s), (imp_fornav_tasks_x_slice s), ((imp_fornav_tasks_in_row_idx s), (imp_fornav_tasks_in_col_idx s)))) s)))) ->
+  forall bind, bind = (fun (x_ : Z * ((Z * Z * Z) * Z)) s => (imp_fornav_tasks_set_ll2cr_block (snd (snd x_)) (imp_fornav_tasks_set_in_col_idx (snd (fst (snd x_))) (imp_fornav_tasks_set_in_row_idx (snd (fst (fst (snd x_)))) (imp_fornav_tasks_set__ (fst (fst (fst (snd x_)))) (imp_fornav_tasks_set_z_idx (fst x_) s)))))) ->
+  forall l s, exists s', for_list l bind body s = Fall [] s' /\ frame3 s' s /\
+    imp_fornav_tasks_output_stack s' = dput (imp_fornav_tasks_output_stack s) (map (tentry (imp_fornav_tasks_task_name s) (imp_fornav_tasks_out_row_idx s) (imp_fornav_tasks_out_col_idx s) (imp_fornav_tasks_y_slice s) (imp_fornav_tasks_x_slice s)) l).
+Proof.
+  intros -> bind ->. induction l as [|x l IH]; intros s.
+  - exists s. cbn. unfold frame3, frame1. repeat split.
+  - cbn [for_list]. unfold andthen at 1. cbv beta. rewrite andthen_assign, assign_eval. tk_proj.
+    match goal with |- context [for_list l _ _ ?st] => destruct (IH st) as (s' & E & F & H) end.
+    (match type of E with ?L = _ => match goal with |- context [for_list l ?a0 ?b0 ?c0] => change (for_list l a0 b0 c0) with L end end).
+    rewrite E. cbn [prepend app]. exists s'. split; [reflexivity|].
+    unfold frame3, frame1 in *. tk_proj. destruct F as ((F1 & F2 & F3) & F4 & F5 & F6 & F7 & F8 & F9 & F10 & F11).
+    tk_proj. repeat split; assumption.
+Qed.
+
+Lemma idx_nat (l : list Z) k : (k < length l)%nat -> idx_ok l (Z.of_nat k) = true /\ idx 0 l (Z.of_nat k) = nth k l 0.
+Proof.
+  intros H. unfold idx_ok, idx, zlen. split.
+  - apply andb_true_intro. split; [apply Z.leb_le | apply Z.ltb_lt]; lia.
+  - destruct (Z.ltb_spec (Z.of_nat k) 0); [lia|]. rewrite Nat2Z.id. reflexivity.
+Qed.
+Lemma skipn_nth (l : list Z) k : (k < length l)%nat -> skipn k l = nth k l 0 :: skipn (S k) l.
+Proof.
+  revert k. induction l as [|x l IH]; intros [|k] H; cbn in *; try lia; [reflexivity|]. apply IH. lia.
+Qed.
+
+(* middle loop: one block of tasks per column chunk, x_start running *)
+Definition mid_entries (tn : Z) (blocks : list ((Z * Z * Z) * Z)) (iy : Z) (ys : pslice) (cols : list (Z * (Z * Z))) : list (tkey * tval) :=
+  flat_map (fun e => entries_block tn blocks iy (fst e) ys (mk_slice (fst (snd e)) (snd (snd e)))) cols.
+
+Lemma loop2 (body : M imp_fornav_tasks_st Empty_set (list (tkey * tval))) :
+  body = (andthen (andthen (check (fun s => (idx_ok (snd (imp_fornav_tasks_out_chunks s)) (imp_fornav_tasks_out_col_idx s)))) (assign (fun s => (imp_fornav_tasks_set_x_end ((imp_fornav_tasks_x_start s) + (idx 0 (snd (imp_fornav_tasks_out_chunks s)) (imp_fornav_tasks_out_col_idx s))) s))))
+ (andthen (assign (fun s => (imp_fornav_tasks_set_y_slice (mk_slice (imp_fornav_tasks_y_start s) (imp_fornav_tasks_y_end s)) s)))
+ (andthen (assign (fun s => (imp_fornav_tasks_set_x_slice (mk_slice (imp_fornav_tasks_x_start s) (imp_fornav_tasks_x_end s)) s)))
+ (andthen (for_ (fun s => (List.combine (zrange (zlen (imp_fornav_tasks_ll2cr_blocks s))) (imp_fornav_tasks_ll2cr_blocks s))) (fun x_ s => (imp_fornav_tasks_set_ll2cr_block (snd (snd x_)) (imp_fornav_tasks_set_in_col_idx (snd (fst (snd x_))) (imp_fornav_tasks_set_in_row_idx (snd (fst (fst (snd x_)))) (imp_fornav_tasks_set__ (fst (fst (fst (snd x_)))) (imp_fornav_tasks_set_z_idx (fst x_) s))))))
+ (andthen (assign (fun s => (imp_fornav_tasks_set_key ((fun p_ => p_) ((imp_fornav_tasks_task_name s), (imp_fornav_tasks_z_idx s), (imp_fornav_tasks_out_row_idx s), (imp_fornav_tasks_out_col_idx s))) s)))
+ (assign (fun s => (imp_fornav_tasks_set_output_stack (d_set tkey_eqb (imp_fornav_tasks_output_stack s) (imp_fornav_tasks_key s) ((imp_fornav_tasks_ll2cr_block s), (imp_fornav_tasks_y_slice s), (imp_fornav_tasks_x_slice s), ((imp_fornav_tasks_in_row_idx s), (imp_fornav_tasks_in_col_idx s)))) s)))))
+ (assign (fun s => (imp_fornav_tasks_set_x_start (imp_fornav_tasks_x_end s) s))))))) ->
+  forall bind, bind = (fun (x_ : Z) s => (imp_fornav_tasks_set_out_col_idx x_ s)) ->
+  forall m k s, (k + m = length (snd (imp_fornav_tasks_out_chunks s)))%nat ->
+  exists s', for_list (map Z.of_nat (seq k m)) bind body s = Fall [] s' /\ frame1 s' s /\
+    imp_fornav_tasks_y_start s' = imp_fornav_tasks_y_start s /\ imp_fornav_tasks_y_end s' = imp_fornav_tasks_y_end s /\ imp_fornav_tasks_out_row_idx s' = imp_fornav_tasks_out_row_idx s /\
+    imp_fornav_tasks_output_stack s' = dput (imp_fornav_tasks_output_stack s)
+      (mid_entries (imp_fornav_tasks_task_name s) (imp_fornav_tasks_ll2cr_blocks s) (imp_fornav_tasks_out_row_idx s) (mk_slice (imp_fornav_tasks_y_start s) (imp_fornav_tasks_y_end s))
+                   (enum_from (Z.of_nat k) (chunk_spans (imp_fornav_tasks_x_start s) (skipn k (snd (imp_fornav_tasks_out_chunks s)))))).
+Proof.
+  intros -> bind ->. induction m as [|m IH]; intros k s Hk.
+  - exists s. cbn [seq map for_list]. rewrite skipn_all2 by lia. cbn. unfold frame1. repeat split.
+  - assert (Hlt : (k < length (snd (imp_fornav_tasks_out_chunks s)))%nat) by lia.
+    destruct (idx_nat _ _ Hlt) as [Hok Hidx].
+    cbn [seq map for_list]. unfold andthen at 1. cbv beta.
+    rewrite seq_assoc, andthen_check. cbv beta. tk_proj. rewrite Hok.
+    rewrite andthen_assign, andthen_assign, andthen_assign. tk_proj.
+    unfold andthen at 1, for_ at 1. cbv beta. tk_proj.
+    match goal with |- context [for_list ?l3 ?bd ?b ?st] =>
+      destruct (loop3 b eq_refl bd eq_refl l3 st) as (s3 & E3 & F3 & H3);
+      change (for_list l3 bd b st) with (for_list l3 bd b st) end.
+    rewrite E3. cbn [prepend app]. rewrite assign_eval. cbn [prepend app]. tk_proj.
+    unfold frame3, frame1 in F3. tk_proj_in F3. destruct F3 as ((G1 & G2 & G3) & G4 & G5 & G6 & G7 & G8 & G9 & G10 & G11).
+    match goal with |- context [for_list (map Z.of_nat (seq (S k) m)) _ _ ?st] =>
+      destruct (IH (S k) st) as (s' & E & F & A1 & A2 & A3 & A4) end.
+    { tk_proj. rewrite G1. lia. }
+    (match type of E with ?L = _ => match goal with |- context [for_list (map Z.of_nat (seq (S k) m)) ?a0 ?b0 ?c0] =>
+        change (for_list (map Z.of_nat (seq (S k) m)) a0 b0 c0) with L end end).
+    rewrite E. cbn [prepend app]. exists s'. split; [reflexivity|].
+    unfold frame1 in *. tk_proj_in F. tk_proj_in A1. tk_proj_in A2. tk_proj_in A3. tk_proj_in A4. tk_proj_in H3.
+    destruct F as (F1 & F2 & F3). tk_proj.
+    repeat split; try congruence.
+    rewrite A4. rewrite H3. rewrite G1, G2, G3, G4, G5, G7, G8.
+    rewrite (skipn_nth _ _ Hlt). cbn [chunk_spans enum_from]. unfold mid_entries. cbn [flat_map fst snd].
+    rewrite dput_app. rewrite Hidx. unfold entries_block.
+    replace (Z.of_nat k + 1) with (Z.of_nat (S k)) by lia. reflexivity.
+Qed.
+
+Lemma zrange_len {A} (l : list A) : zrange (zlen l) = map Z.of_nat (seq 0 (length l)).
+Proof. unfold zrange, zlen. rewrite Nat2Z.id. reflexivity. Qed.
+
+(* outer loop: one row of blocks per row chunk, y_start running *)
+Definition row_entries (tn : Z) (blocks : list ((Z * Z * Z) * Z)) (xch : list Z) (rows : list (Z * (Z * Z))) : list (tkey * tval) :=
+  flat_map (fun r => mid_entries tn blocks (fst r) (mk_slice (fst (snd r)) (snd (snd r))) (enum_from 0 (chunk_spans 0 xch))) rows.
+
+Lemma loop1 (body : M imp_fornav_tasks_st Empty_set (list (tkey * tval))) :
+  body = (andthen (andthen (check (fun s => (idx_ok (fst (imp_fornav_tasks_out_chunks s)) (imp_fornav_tasks_out_row_idx s)))) (assign (fun s => (imp_fornav_tasks_set_y_end ((imp_fornav_tasks_y_start s) + (idx 0 (fst (imp_fornav_tasks_out_chunks s)) (imp_fornav_tasks_out_row_idx s))) s))))
+ (andthen (assign (fun s => (imp_fornav_tasks_set_x_start (0) s)))
+ (andthen (for_ (fun s => (zrange (zlen (snd (imp_fornav_tasks_out_chunks s))))) (fun x_ s => (imp_fornav_tasks_set_out_col_idx x_ s))
+ (andthen (andthen (check (fun s => (idx_ok (snd (imp_fornav_tasks_out_chunks s)) (imp_fornav_tasks_out_col_idx s)))) (assign (fun s => (imp_fornav_tasks_set_x_end ((imp_fornav_tasks_x_start s) + (idx 0 (snd (imp_fornav_tasks_out_chunks s)) (imp_fornav_tasks_out_col_idx s))) s))))
+ (andthen (assign (fun s => (imp_fornav_tasks_set_y_slice (mk_slice (imp_fornav_tasks_y_start s) (imp_fornav_tasks_y_end s)) s)))
+ (andthen (assign (fun s => (imp_fornav_tasks_set_x_slice (mk_slice (imp_fornav_tasks_x_start s) (imp_fornav_tasks_x_end s)) s)))
+ (andthen (for_ (fun s => (List.combine (zrange (zlen (imp_fornav_tasks_ll2cr_blocks s))) (imp_fornav_tasks_ll2cr_blocks s))) (fun x_ s => (imp_fornav_tasks_set_ll2cr_block (snd (snd x_)) (imp_fornav_tasks_set_in_col_idx (snd (fst (snd x_))) (imp_fornav_tasks_set_in_row_idx (snd (fst (fst (snd x_)))) (imp_fornav_tasks_set__ (fst (fst (fst (snd x_)))) (imp_fornav_tasks_set_z_idx (fst x_) s))))))
+ (andthen (assign (fun s => (imp_fornav_tasks_set_key ((fun p_ => p_) ((imp_fornav_tasks_task_name s), (imp_fornav_tasks_z_idx s), (imp_fornav_tasks_out_row_idx s), (imp_fornav_tasks_out_col_idx s))) s)))
+ (assign (fun s => (imp_fornav_tasks_set_output_stack (d_set tkey_eqb (imp_fornav_tasks_output_stack s) (imp_fornav_tasks_key s) ((imp_fornav_tasks_ll2cr_block s), (imp_fornav_tasks_y_slice s), (imp_fornav_tasks_x_slice s), ((imp_fornav_tasks_in_row_idx s), (imp_fornav_tasks_in_col_idx s)))) s)))))
+ (assign (fun s => (imp_fornav_tasks_set_x_start (imp_fornav_tasks_x_end s) s))))))))
+ (assign (fun s => (imp_fornav_tasks_set_y_start (imp_fornav_tasks_y_end s) s)))))) ->
+  forall bind, bind = (fun (x_ : Z) s => (imp_fornav_tasks_set_out_row_idx x_ s)) ->
+  forall m k s, (k + m = length (fst (imp_fornav_tasks_out_chunks s)))%nat ->
+  exists s', for_list (map Z.of_nat (seq k m)) bind body s = Fall [] s' /\ frame1 s' s /\
+    imp_fornav_tasks_output_stack s' = dput (imp_fornav_tasks_output_stack s)
+      (row_entries (imp_fornav_tasks_task_name s) (imp_fornav_tasks_ll2cr_blocks s) (snd (imp_fornav_tasks_out_chunks s))
+                   (enum_from (Z.of_nat k) (chunk_spans (imp_fornav_tasks_y_start s) (skipn k (fst (imp_fornav_tasks_out_chunks s)))))).
+Proof.
+  intros -> bind ->. induction m as [|m IH]; intros k s Hk.
+  - exists s. cbn [seq map for_list]. rewrite skipn_all2 by lia. cbn. unfold frame1. repeat split.
+  - assert (Hlt : (k < length (fst (imp_fornav_tasks_out_chunks s)))%nat) by lia.
+    destruct (idx_nat _ _ Hlt) as [Hok Hidx].
+    cbn [seq map for_list]. unfold andthen at 1. cbv beta.
+    rewrite seq_assoc, andthen_check. cbv beta. tk_proj. rewrite Hok.
+    rewrite andthen_assign, andthen_assign. tk_proj.
+    unfold andthen at 1, for_ at 1. cbv beta. tk_proj. rewrite zrange_len.
+    match goal with |- context [for_list (map Z.of_nat (seq 0 ?n)) ?bd ?b ?st] =>
+      destruct (loop2 b eq_refl bd eq_refl n 0%nat st) as (s2 & E2 & F2 & B1 & B2 & B3 & B4) end.
+    { tk_proj. lia. }
+    (match type of E2 with ?L = _ => match goal with |- context [for_list (map Z.of_nat (seq 0 ?n)) ?a0 ?b0 ?c0] =>
+        change (for_list (map Z.of_nat (seq 0 n)) a0 b0 c0) with L end end).
+    rewrite E2. cbn [prepend app]. rewrite assign_eval. cbn [prepend app]. tk_proj.
+    unfold frame1 in F2. tk_proj_in F2. tk_proj_in B1. tk_proj_in B2. tk_proj_in B3. tk_proj_in B4.
+    destruct F2 as (G1 & G2 & G3).
+    match goal with |- context [for_list (map Z.of_nat (seq (S k) m)) _ _ ?st] =>
+      destruct (IH (S k) st) as (s' & E & F & A4) end.
+    { tk_proj. rewrite G1. lia. }
+    (match type of E with ?L = _ => match goal with |- context [for_list (map Z.of_nat (seq (S k) m)) ?a0 ?b0 ?c0] =>
+        change (for_list (map Z.of_nat (seq (S k) m)) a0 b0 c0) with L end end).
+    rewrite E. cbn [prepend app]. exists s'. split; [reflexivity|].
+    unfold frame1 in *. tk_proj_in F. tk_proj_in A4. destruct F as (F1 & F2 & F3).
+    repeat split; try congruence.
+    rewrite A4, B4. rewrite G1, G2, G3, B2. cbn [skipn].
+    rewrite (skipn_nth _ _ Hlt). cbn [chunk_spans enum_from]. unfold row_entries. cbn [flat_map fst snd].
+    rewrite dput_app. rewrite Hidx.
+    replace (Z.of_nat k + 1) with (Z.of_nat (S k)) by lia. reflexivity.
+Qed.
+
+Lemma flat_map_flat_map {A B C} (f : B -> list C) (g : A -> list B) (l : list A) :
+  flat_map f (flat_map g l) = flat_map (fun a => flat_map f (g a)) l.
+Proof. induction l as [|a l IH]; cbn; [reflexivity|]. rewrite flat_map_app, IH. reflexivity. Qed.
+Lemma flat_map_map {A B C} (f : B -> list C) (h : A -> B) (l : list A) : flat_map f (map h l) = flat_map (fun a => f (h a)) l.
+Proof. induction l as [|a l IH]; cbn; [reflexivity|]. rewrite IH. reflexivity. Qed.
+
+Lemma row_entries_model tn blocks ych xch :
+  row_entries tn blocks xch (enum_from 0 (chunk_spans 0 ych)) = tasks_model tn ych xch blocks.
+Proof.
+  unfold tasks_model, out_blocks, row_entries. rewrite flat_map_flat_map. apply flat_map_ext. intros [iy [y0 y1]].
+  rewrite flat_map_map. unfold mid_entries. apply flat_map_ext. intros [ix [x0 x1]]. reflexivity.
+Qed.
+
+(* code is model: the generated method returns the dictionary obtained by assigning, in order, the model's tasks *)
+Theorem fornav_tasks_code_is_model ych xch blocks tn inp tgt fv kw :
+  value_of (imp_fornav_tasks (ych, xch) blocks tn inp tgt fv kw) = COk (dput [] (tasks_model tn ych xch blocks)).
+Proof.
+  unfold imp_fornav_tasks. rewrite andthen_assign, andthen_assign. tk_proj.
+  unfold andthen at 1, for_ at 1. cbv beta. tk_proj. rewrite zrange_len.
+  match goal with |- context [for_list (map Z.of_nat (seq 0 ?n)) ?bd ?b ?st] =>
+    destruct (loop1 b eq_refl bd eq_refl n 0%nat st) as (s1 & E1 & F1 & H1) end.
+  { tk_proj. lia. }
+  (match type of E1 with ?L = _ => match goal with |- context [for_list (map Z.of_nat (seq 0 ?n)) ?a0 ?b0 ?c0] =>
+      change (for_list (map Z.of_nat (seq 0 n)) a0 b0 c0) with L end end).
+  rewrite E1. cbn [prepend app]. unfold ret. cbn [prepend app value_of]. f_equal.
+  tk_proj_in H1. rewrite H1. cbn [skipn]. rewrite row_entries_model. reflexivity.
+Qed.
+
+(* [dput] is Python's dictionary assignment in order (a repeated key would overwrite in place); both sides use it, so no
+   freshness hypothesis on the keys is needed *)
